@@ -102,9 +102,13 @@ def handle (j : Json) : Except String Json := do
       let choice := match optField st "choice" with
         | some (.str c) => c
         | _ => (handleInitialize Verif.Gen.Versions.supported Verif.Gen.Versions.handlerDefault r).answered
-      pure ((r, carry, choice) : InitStepG))
-    let (os, _) := runInitsG Verif.Gen.Versions.supported [] steps
-    return Json.mkObj [("steps", Json.arr (os.map (fun (a, rec) =>
+      let h := match optField st "h" with
+        | some hj => hj.getNat?.toOption.getD 0
+        | none => 0
+      pure ((h, r, carry, choice) : Nat × InitStepG))
+    -- several handlers alive at once (a step's "h", default 0): `runHandlers`; with one handler this is `runInitsG`
+    let os := runHandlers Verif.Gen.Versions.supported (fun _ => []) steps
+    return Json.mkObj [("steps", Json.arr (os.map (fun (_, a, rec) =>
       Json.mkObj [("answered", Json.str a),
         ("recorded", match rec with | some v => Json.str v | none => Json.null)])).toArray)]
   | "client" =>
@@ -112,10 +116,7 @@ def handle (j : Json) : Except String Json := do
     let pref ← getPref j
     let ans ← getAnswer (← j.getObjVal? "ans")
     let (o, t, tr) := trackedInit parseDate sup pref ans
-    let trj := match tr with
-      | some (v, mode) => Json.mkObj [("v", Json.str v), ("batching", Json.bool mode)]
-      | none => Json.null
-    return Json.mkObj (outcomeJson o ++ [("trace", traceJson t), ("tracked", trj)])
+    return Json.mkObj (outcomeJson o ++ [("trace", traceJson t), ("tracked", trackedJson tr)])
   | "clientw" =>
     let sup ← getSup j
     let pref ← getPref j
@@ -128,9 +129,13 @@ def handle (j : Json) : Except String Json := do
       let sup ← getSup st
       let pref ← getPref st
       let ans ← getAnswer (← st.getObjVal? "ans")
-      pure ((sup, pref, ans) : ClientStep))
-    let rs := runClientSeq parseDate none steps
-    return Json.mkObj [("steps", Json.arr (rs.map (fun (o, t, tr) =>
+      let k := match optField st "conn" with
+        | some kj => kj.getNat?.toOption.getD 0
+        | none => 0
+      pure ((k, sup, pref, ans) : Nat × ClientStep))
+    -- several connections alive at once (a step's "conn", default 0): `runClients`; with one connection this is `runClientSeq`
+    let rs := runClients parseDate (fun _ => none) steps
+    return Json.mkObj [("steps", Json.arr (rs.map (fun (_, o, t, tr) =>
       Json.mkObj (outcomeJson o ++ [("trace", traceJson t), ("tracked", trackedJson tr)]))).toArray)]
   | "handshake" =>
     let sup ← getSup j
